@@ -5,7 +5,9 @@ import (
 	"strconv"
 	"sync"
 
+	soy "github.com/robfig/soy"
 	"github.com/robfig/soy/data"
+	"github.com/robfig/soy/parse"
 	"github.com/robfig/soy/soyhtml"
 	"github.com/robfig/soy/soyjs"
 	"github.com/robfig/soy/template"
@@ -33,14 +35,72 @@ type renderJob struct {
 	ok   bool
 }
 
+// racerProbe is added to every racer bundle: prints whose directive lists have 3, 5, 6 and 7 entries that do
+// not cancel autoescaping (the parser's slice then has spare capacity: an append by a reader writes into the
+// shared tree), marker directives followed by others, content blocks in let / param / log.
+const racerProbe = `{namespace rprobe}
+
+/** @param s */
+{template .dirs}
+{$s|truncate:9|truncate:8|truncate:7}
+{$s|truncate:9|truncate:8|truncate:7|truncate:6|truncate:5}
+{$s|truncate:9|truncate:8|truncate:7|truncate:6|truncate:5|truncate:4}
+{$s|truncate:9|truncate:8|truncate:7|truncate:6|truncate:5|truncate:4|truncate:3}
+{$s|noAutoescape|truncate:40}{$s|id|insertWordBreaks:3}{$s|truncate:5|changeNewlineToBr}
+{let $c}block {$s}{/let}{$c}{call .wrap}{param body}inner {$s}{/param}{/call}{log}log {$s}{/log}
+{/template}
+
+/** @param body */
+{template .wrap}
+[{$body|noAutoescape}]
+{/template}
+`
+
+// firstFailuresConcurrently: the first FAILING parses of the process happen in several goroutines at once
+// (lazily built tables of the error paths — token names, messages — are initialised under contention).
+// Must run before anything else parses a broken source in this process.
+func firstFailuresConcurrently(rep *Report) {
+	broken := []string{
+		"{namespace a}\n{template .t}\n{foreach $x $y}{/foreach}\n{/template}\n",    // expect "in"
+		"{namespace a}\n{template .t}\n{call .u}{param k 1/}{/call}\n{/template}\n", // expect ":"
+		"{namespace a}\n{template .t}\n{let $x 1/}\n{/template}\n",
+		"{namespace a}\n{template .t}\n{if $x}\n{/template}\n",
+		"{namespace a}\n{template .t}\n{switch $x}{case}{/switch}\n{/template}\n",
+		"{namespace a}\n{template .t}\n{$x ? 1}\n{/template}\n", // expect ":" in ternary
+		"{namespace a}\n{template .t}\n{[1, 2}\n{/template}\n",
+		"{namespace a}\n{template .t}\n{msg}x{/msg}\n{/template}\n",
+	}
+	for round := 0; round < 2; round++ {
+		var wg sync.WaitGroup
+		start := make(chan struct{})
+		for w := 0; w < 8; w++ {
+			wg.Add(1)
+			go func(w int) {
+				defer wg.Done()
+				<-start
+				for k := range broken {
+					soy.NewBundle().AddTemplateString("b.soy", broken[(k+w)%len(broken)]).Compile()
+					parse.Expr("1 +")
+					parse.Expr("f(1,")
+				}
+			}(w)
+		}
+		close(start)
+		wg.Wait()
+		rep.Evaluations += 8 * len(broken)
+	}
+	rep.Distribution["concurrent-first-failing-parses"] += 2
+}
+
 func directC09(g *G, rep *Report) {
+	firstFailuresConcurrently(rep)
 	nb := g.N(25, 400)
 	G, R := 8, g.N(6, 12)
 	bg := newBundleGen(g.R.Fork(), bundleOpts{msgs: true, directives: true, calls: true})
 	seen := map[string]bool{}
 	for i := 0; i < nb; i++ {
 		b := bg.bundle()
-		fs := b.sources()
+		fs := append(b.sources(), srcFile{"rprobe.soy", racerProbe})
 		reg, err := compileBundle(fs)
 		if err != nil {
 			continue
@@ -70,6 +130,12 @@ func directC09(g *G, rep *Report) {
 					rep.DistinctNT++
 				}
 			}
+		}
+		{
+			d := toData(map[string]interface{}{"s": "a<b>&c d\ne f g h i j k"})
+			var buf bytes.Buffer
+			err := soyhtml.NewTofu(reg).NewRenderer("rprobe.dirs").Inject(ij).Execute(&buf, d)
+			jobs = append(jobs, renderJob{"rprobe.dirs", d, buf.String(), err == nil})
 		}
 		// sequential JS per file
 		wantJS := map[string]string{}
